@@ -132,6 +132,9 @@ def encOther (nSubs nMacros : Nat) (e : Enc) (ty arg : Nat) : Except CErr Enc :=
 
 /-- one iteration of the `for` loop -/
 def encEv (nSubs nMacros : Nat) (e : Enc) (ev : MEv) : Except CErr Enc :=
+  -- `if(type == LPB && loop_break_address.size() && loop_break_address.top()) continue;`
+  -- (only the first break of a loop gets a break command)
+  if ev.type = mds_LPB ∧ e.breaks.head?.getD 0 ≠ 0 then .ok e else
   let r : Except CErr Enc :=
     if ev.type = mds_REST ∧ ev.arg ≠ 0 then encRest e ev.arg
     else if ev.type < mds_SLR ∧ ev.arg ≠ 0 then .ok (encNote e ev.type ev.arg)
